@@ -295,13 +295,32 @@ def wire16(secs):
             t += [["X", l[:-1]] for l in sec[1]]
         elif sec[0] == "elem":
             ib, ie = sec[3] if len(sec) > 3 else ("", "")
-            t.append(["B", sec[1], ib, ie, [l for l in sec[2]]])
+            t.append(["B", sec[1], ib, ie, [segs_of(l) if isinstance(l, str) else l for l in sec[2]]])
         elif sec[0] == "sig":
             ib, ie = sec[2] if len(sec) > 2 else ("", "")
-            t.append(["S", ib, ie, [l for l in sec[1]]])
+            t.append(["S", ib, ie, [segs_of(l) if isinstance(l, str) else l for l in sec[1]]])
+        elif sec[0] == "trans":
+            _k, s_pre, e_pre, g_body, e_post, s_post = sec
+            ev = [["EL", segs_of(l)] for l in e_pre] + [["EG", "", "", [segs_of(l) for l in g_body]]] + [["EL", segs_of(l)] for l in e_post]
+            t.append(["TB", "", "", [["TL", segs_of(l)] for l in s_pre] + [["TE", "", "", ev]] + [["TL", segs_of(l)] for l in s_post]])
         else:
             return None
     return t
+
+
+def segs_of(line):
+    """a template line (text) as a segment list"""
+    text = line[:-1] if line.endswith("\n") else line
+    out, pos = [], 0
+    for m in re.finditer(r"<<<([^<>]*)>>>", text):
+        if m.start() > pos:
+            out.append(["L", text[pos:m.start()]])
+        body = m.group(1)
+        out.append(["T"] + (body.split("=", 1) if "=" in body else [body]))
+        pos = m.end()
+    if pos < len(text):
+        out.append(["L", text[pos:]])
+    return out
 
 
 def coq_side(km, secs, table, structs, protos, msgs):
